@@ -23,8 +23,8 @@ ASSUMPTIONS = [
     "with dask.local.get_sync and finalised with the collection's __dask_postcompute__",
     "baseline = the expression lowered without any simplification (Expr.lower_completely); optimized = dask._expr.optimize_until(expr, 'fused'); "
     "re-optimized = optimize_until(optimized, 'fused')",
-    "a result that is ALREADY different from pandas without the optimizer (baseline != pandas, or baseline raises) belongs to C36-C40 and is only counted here "
-    "(baseline_differs / baseline_raises): C43 then demands optimized == baseline instead of == pandas",
+    "a program whose result is ALREADY different from pandas without the optimizer (baseline != pandas, or baseline raises) belongs to C36-C40/C46 and is only counted "
+    "here (baseline_differs / baseline_raises); for it C43 only demands that optimize() terminates and converges",
     "row order / index are compared exactly for row-wise programs; programs containing merge, set_index, sort_values, drop_duplicates, unique, value_counts, concat are "
     "compared as multisets of rows (index ignored for merge/drop_duplicates/unique/describe) -- what pandas and dask promise for them",
     "a step on which pandas raises is dropped from the alphabet (inapplicable)",
@@ -166,22 +166,21 @@ def evaluate(case, pxs):
     if ost == "exc":
         if isinstance(opt, RuntimeError) and "does not converge" in str(opt):
             problems.append(("optimize", "non-convergence", repr(opt)[:300]))
-        elif note != "baseline_raises":
+        elif note == "ok":
             problems.append(("optimize", f"raises:{type(opt).__name__}", repr(opt)[:300]))
         return ("fail" if problems else note), problems, pxs, len(parts) >= 2
-    changed = opt._name != e.lower_completely()._name
+    cst, changed = attempt(lambda: opt._name != e.lower_completely()._name)
+    changed = bool(changed) if cst == "ok" else False
     rst, res = attempt(lambda: materialize(opt))
     if rst == "exc":
-        if note != "baseline_raises" and not isinstance(res, dfh.PyArrowUnavailable):
+        if note == "ok" and not isinstance(res, dfh.PyArrowUnavailable):
             problems.append(("optimized", f"raises:{type(res).__name__}", repr(res)[:300]))
-    elif note != "baseline_raises":
+    elif note == "ok":
         why = same(res, reference, mode)
-        if why and note == "baseline_differs" and same(res, want, mode) is None:
-            why, reference = None, want  # the optimized plan avoids a defect of the unoptimized one and agrees with pandas
         if why:
             problems.append(("optimized", "wrong:" + P.diff_class(res, reference, mode[0]), why))
     # ---- re-optimizing the optimized expression
-    if not problems:
+    if not problems and note == "ok":
         ost2, opt2 = attempt(lambda: optimize_until(opt, "fused"))
         if ost2 == "exc":
             kind_ = "non-convergence" if (isinstance(opt2, RuntimeError) and "does not converge" in str(opt2)) else f"raises:{type(opt2).__name__}"
@@ -243,8 +242,28 @@ def consumer_class(step):
     return P.chain_sig(step)
 
 
+def minimize(case, problems):
+    """delta-debugging on the step sequence: drop steps while the program stays valid for pandas and still fails in the same way
+    (same stage-independent failure kind); the surviving steps name the finding"""
+    prog = list(case[5])
+    kind0 = problems[0][1].split(":")[0]
+    root = dfh.with_index(dfh.base_frames(0, NROWS)[case[1]], case[2])
+    progress = True
+    while progress and len(prog) > 1:
+        progress = False
+        for i in range(len(prog) - 1, -1, -1):
+            cand = tuple(prog[:i] + prog[i + 1 :])
+            st, _ = attempt(lambda: P.run_pandas(cand, root, None))
+            if st == "exc":
+                continue
+            r = evaluate(case[:5] + (cand,), None)
+            if r[0] == "fail" and r[1][0][1].split(":")[0] == kind0:
+                prog, problems, progress = list(cand), r[1], True
+                break
+    return tuple(prog), problems
+
+
 def run_case(case, ctx, pxs=None):
-    prog = case[5]
     status, problems, pxs, nontrivial = evaluate(case, pxs)
     ctx.case(case, nontrivial=nontrivial, outcome=(P.summary(pxs[-1]), status))
     if status == "ok":
@@ -252,15 +271,11 @@ def run_case(case, ctx, pxs=None):
     if status in QUIET:
         ctx.count(status)
         return
-    k = len(prog)
-    if len(prog) > 1:
-        k, r = first_failing_prefix(case)
-        if r is not None:
-            problems = r[1]
-    # name = producer (exact operation) > consumer (coarse class): one optimizer rule is usually identified by the producer it rewrites
-    chain = (P.chain_sig(prog[k - 2]) + ">" if k >= 2 else "") + consumer_class(prog[k - 1])
+    prog, problems = minimize(case, problems)
+    # name = the producer whose rewrite goes wrong (every consumer class of it is one finding); a 1-step program is named by itself
+    name = (P.chain_sig(prog[-2]) + ">*") if len(prog) >= 2 else P.chain_sig(prog[-1])
     for stage, failure, detail in problems:
-        ctx.violation(f"{stage}:{failure}:{chain}", case, f"steps 1..{k} of {len(prog)}: {detail}")
+        ctx.violation(f"{stage}:{failure}:{name}", case, f"minimal failing program [{P.program_src(prog)}]: {detail}")
 
 
 def run_shard(shard, ctx):
